@@ -69,19 +69,22 @@ def check_sedov(case):
     o = Out()
     s = cat.make_solver(case)
     t = case['t']
-    cat.quiet(s, np.array([1.0]), t)
-    r2 = float(s.r2)
+    # shock and vacuum-boundary radius at t from an object that has seen nothing else; the object under test has been used at a later time before
+    ref = cat.make_solver(case)
+    cat.quiet(ref, np.array([1.0]), t)
+    r2, rvv = float(ref.r2), float(ref.rvv)
+    cat.quiet(s, np.array([1.0]), 1.9 * t)
     x = np.linspace(r2 * 1e-3, r2 * 1.4, 400)
     sol = cat.quiet(s, x, t)
     vac = case['kind'] == 'vacuum'
     rho = np.asarray(sol['density'], float)
     o.true('density > 0 (exactly 0 only in the evacuated core of a vacuum-type solution)',
-           bool(np.all(np.isfinite(rho)) and np.all(rho[x > (float(s.rvv) * 1.002 if vac else 0)] > 0) and np.all(rho >= 0)), regime=case['kind'])
+           bool(np.all(np.isfinite(rho)) and np.all(rho[x > (rvv * 1.002 if vac else 0)] > 0) and np.all(rho >= 0)), regime=case['kind'])
     p = np.asarray(sol['pressure'], float)
     o.true('pressure >= 0 and finite', bool(np.all(np.isfinite(p)) and np.all(p >= 0)), regime=case['kind'])
     inside = x < r2 * (1 - 2e-3)
     if vac:
-        inside &= x > float(s.rvv) * 1.01
+        inside &= x > rvv * 1.01
     e = np.asarray(sol['specific_internal_energy'], float)[inside]
     c = np.asarray(sol['sound_speed'], float)[inside]
     o.true('sie >= 0 and sound speed real behind the shock', bool(np.all(np.isfinite(e)) and np.all(e >= 0) and np.all(np.isfinite(c)) and np.all(c >= 0)), regime=case['kind'])
@@ -177,6 +180,21 @@ def check_riemann(case):
         ahead, behind = (0, 1) if side == 'left' else (1, 0)
         o.true('%s shock compressive (p, rho rise into the shocked gas)' % side,
                bool(Fs[2][behind] > Fs[2][ahead] and Fs[0][behind] > Fs[0][ahead]), regime=pat, p=Fs[2].tolist(), rho=Fs[0].tolist())
+    # pattern-independent: every discontinuity that carries a pressure jump must be compressive for the gas that crosses it
+    # (speed from the mass jump condition; the gas enters from the side it moves away from in the shock frame)
+    if not gen:
+        _, _, jumps = rtools.locate_jumps(s, t, x[0], x[-1], n=1500)
+        for jp in jumps:
+            (rl_, ul_, pl_), (rr_, ur_, pr_) = jp['Fl'][:3], jp['Fr'][:3]
+            if abs(pl_ - pr_) <= 1e-6 * max(pl_, pr_) or abs(rl_ - rr_) <= 1e-9 * max(rl_, rr_):
+                continue          # contact (or no density jump to take the speed from)
+            Dj = (rr_ * ur_ - rl_ * ul_) / (rr_ - rl_)
+            flux = rl_ * (ul_ - Dj)                      # > 0: gas crosses from left to right
+            if abs(flux) <= 1e-9 * rl_ * (abs(ul_) + abs(Dj) + 1e-300):
+                continue
+            up_, dn_ = ((pl_, rl_), (pr_, rr_)) if flux > 0 else ((pr_, rr_), (pl_, rl_))
+            o.true('every pressure discontinuity is compressive for the gas crossing it (no expansion shock)', bool(dn_[0] > up_[0] and dn_[1] > up_[1]), regime=pat,
+                   upstream=list(map(float, up_)), downstream=list(map(float, dn_)), at=float(0.5 * (jp['xl'] + jp['xr'])))
     # global bounds: p between min and max of (pl, pr, p*); velocity between min/max of (ul, ur, u*)
     lo, hi = min(P['pl'], P['pr'], ps), max(P['pl'], P['pr'], ps)
     o.true('pressure bounded by the initial and star pressures', bool(np.all(p >= lo * (1 - 5 * slack - 1e-9) - 4e-12) and np.all(p <= hi * (1 + 5 * slack + 1e-9) + 4e-12)), regime=pat,
@@ -210,6 +228,21 @@ def check_ehep(case):
     m = reg == 'I'
     if m.sum() > 3 and np.all(np.diff(np.where(m)[0]) == 1):
         mono(o, 'region I: pressure non-decreasing toward the detonation front', np.asarray(sol['pressure'], float)[m], +1, 1e-9, regime='I')
+    # nothing exceeds the Chapman-Jouguet state (gamma = 3: p_CJ = rho_0 D^2 / 4, rho_CJ = 4 rho_0 / 3) ...
+    pcj, rcj = P['rho_0'] * P['D'] ** 2 / 4.0, 4.0 * P['rho_0'] / 3.0
+    if P['up'] == 0:
+        o.true('pressure and density bounded by the CJ state (no piston)', bool(np.all(np.asarray(sol['pressure'], float) <= pcj * (1 + 1e-9)) and np.all(rho <= rcj * (1 + 1e-9))),
+               pmax=float(np.max(np.asarray(sol['pressure'], float))), pcj=pcj)
+    # ... and while the detonation is still inside the explosive, the explosive just ahead of the front is undisturbed (rho_0, p = 0)
+    tf = case['ft'] * P['xtilde'] / P['D']
+    front = P['D'] * tf
+    xa = front + P['xtilde'] * np.array([5e-4, 1e-3, 2e-3, 4e-3, 1e-2])
+    xa = xa[xa < P['xtilde'] * (1 - 1e-3)]
+    if xa.size:
+        sa = cat.quiet(s, np.concatenate([[0.5 * front], xa]), tf)
+        o.true('explosive just ahead of the detonation front is undisturbed (rho_0, p = 0)',
+               bool(np.all(np.asarray(sa['pressure'], float)[1:] == 0) and np.all(np.asarray(sa['density'], float)[1:] == P['rho_0'])),
+               p=np.asarray(sa['pressure'], float)[1:].tolist(), rho=np.asarray(sa['density'], float)[1:].tolist(), ahead_by=((xa - front) / P['xtilde']).tolist())
     o.label(*sorted(set(reg)))
     o.nontrivial = True
     return o
